@@ -146,7 +146,7 @@ def FwdImpl.renderItem (f : FwdImpl) : FwdItem → GToks
     let r := U (refTypeWith f.rhs f.rhsIsRef).toks
     let lExpr := changeOwned ["self"] f.this implL f.thisIsRef
     let rExpr := changeOwned ["__rhs"] f.rhs implR f.rhsIsRef
-    implItem autoDerived (U f.generics.implToks) (bt +++ angle implRhs) implThis (U f.generics.whereToks)
+    implItem autoDerived (U f.generics.implToks) (bt +++ angle implRhs) implThis (U f.generics.whereToksIn)
       ([typeM "Output", "="] +++ U (f.output.getD .never).toks +++ [";", fnM bf] +++
         paren (["self", ",", "__rhs", ":"] +++ implRhs) +++ ["->", "Self", pathM "Output"] +++
         brace (ufcs l (bt +++ angle r) bf +++ paren (lExpr +++ "," ::: rExpr)))
@@ -157,7 +157,7 @@ def FwdImpl.renderItem (f : FwdImpl) : FwdItem → GToks
     let af := opFunc f.op .assign
     let l := U (refTypeWith f.this callL).toks
     let lExpr := changeOwned ["self"] f.this true callL
-    implItem autoDerived (U f.generics.implToks) (at_ +++ angle (U rhs.toks)) (U f.this.toks) (U f.generics.whereToks)
+    implItem autoDerived (U f.generics.implToks) (at_ +++ angle (U rhs.toks)) (U f.this.toks) (U f.generics.whereToksIn)
       ([fnM af] +++ paren (["&", "mut", "self", ",", "__rhs", ":"] +++ U rhs.toks) +++
         brace (["*", "self", "="] +++ ufcs l (bt +++ angle (U rhs.toks)) bf +++ paren (lExpr +++ [",", "__rhs"])))
   | .binFromAssign =>
@@ -167,7 +167,7 @@ def FwdImpl.renderItem (f : FwdImpl) : FwdItem → GToks
     let af := opFunc f.op .assign
     let this := U f.thisOrig.toks
     let rhs := U f.rhsOrig.toks
-    implItem autoDerived (U f.generics.implToks) (bt +++ angle rhs) this (U f.generics.whereToks)
+    implItem autoDerived (U f.generics.implToks) (bt +++ angle rhs) this (U f.generics.whereToksIn)
       ([typeM "Output", "="] +++ this +++ [";", fnM bf] +++ paren (["mut", "self", ",", "__rhs", ":"] +++ rhs) +++
         ["->", "Self", pathM "Output"] +++
         brace (ufcs this (at_ +++ angle rhs) af +++ paren ["&", "mut", "self", ",", "__rhs"] +++ [";", "self"]))
